@@ -1,5 +1,8 @@
 import NutilsVerif.Model.C12
 import NutilsVerif.Proofs.C12Merge
+import NutilsVerif.Proofs.C12Struct
+import NutilsVerif.Proofs.C12Generic
+import NutilsVerif.Proofs.C12BSpline
 /-!
 # C12 — property theorems (statements about the executable model in `Model/C12.lean`)
 -/
@@ -133,5 +136,186 @@ theorem merge_index_map_empty_set (n : Nat) (sets rest : List (List Nat)) (conde
 -- non-vacuity: the hypotheses of `merge_index_map_spec` are satisfiable (indices in range, a result exists)
 example : (∀ s ∈ [[3, 1], [4, 3], [0]], ∀ i ∈ s, i < 5) ∧ ∃ r, mergeIndexMapNat 5 [[3, 1], [4, 3], [0]] true = .ok r :=
   ⟨by decide, merge_index_map_total 5 _ true (by decide)⟩
+
+
+/-- the entry point with python `int` indices (negative ones wrap, as numpy does) computes the same as the
+natural-number form the specification is stated on, applied to the normalised sets; all normalised
+indices are in range, so `merge_index_map_spec` applies to every successful run of the mirrored code. -/
+theorem merge_index_map_int (n : Nat) (sets : List (List Int)) (sets' : List (List Nat)) (condense : Bool)
+    (h : sets.mapM (fun s => s.mapM (normIdx n)) = .ok sets') :
+    mergeIndexMap n sets condense = mergeIndexMapNat n sets' condense ∧ ∀ s ∈ sets', ∀ i ∈ s, i < n := by
+  refine ⟨mergeIndexMap_eq_nat' n sets sets' condense h, ?_⟩
+  have mapM_mem : ∀ {α β : Type} (f : α → Except MergeErr β) (l : List α) (r : List β),
+      l.mapM f = .ok r → ∀ y ∈ r, ∃ x ∈ l, f x = .ok y := by
+    intro α β f l
+    induction l with
+    | nil => intro r hr y hy
+             have : r = [] := by
+               have : (Except.ok [] : Except MergeErr (List β)) = .ok r := hr
+               injection this with this; exact this.symm
+             subst this; cases hy
+    | cons a t ih =>
+      intro r hr y hy
+      rw [List.mapM_cons] at hr
+      cases ha : f a with
+      | error e => rw [ha] at hr; cases hr
+      | ok b =>
+        rw [ha] at hr
+        cases ht : t.mapM f with
+        | error e => rw [ht] at hr; cases hr
+        | ok r' =>
+          rw [ht] at hr
+          have : r = b :: r' := by
+            have : (Except.ok (b :: r') : Except MergeErr (List β)) = .ok r := hr
+            injection this with this; exact this.symm
+          subst this
+          rcases List.mem_cons.mp hy with e | e
+          · subst e; exact ⟨a, List.mem_cons_self, ha⟩
+          · obtain ⟨x, hx, hfx⟩ := ih r' ht y e
+            exact ⟨x, List.mem_cons_of_mem _ hx, hfx⟩
+  intro s hs i hi
+  obtain ⟨s0, _, hs0⟩ := mapM_mem _ sets sets' h s hs
+  obtain ⟨i0, _, hi0⟩ := mapM_mem _ s0 s hs0 i hi
+  exact normIdx_lt hi0
+
+/-! ## structured spline bases -/
+
+theorem buildDim_wf {spec : DimSpec} {d : SDim} (h : buildDim spec = .ok d) :
+    d.WF ∧ d.n = spec.2.1 ∧ d.stop = d.start.map (· + spec.1 + 1) := by
+  obtain ⟨p, n, c, m, per⟩ := spec
+  unfold buildDim at h
+  simp only at h
+  cases hm : resolveMults p n c m with
+  | error e => rw [hm] at h; cases h
+  | ok mm =>
+    rw [hm] at h
+    exact splineDim_wf (p := p) (n := n) (m := mm) (per := per) h (fun x hx => ((resolveMults_range hm).2 x hx).1)
+
+theorem mapM_buildDim_wf : ∀ (specs : List DimSpec) (ds : List SDim), specs.mapM buildDim = .ok ds → ∀ d ∈ ds, d.WF := by
+  intro specs
+  induction specs with
+  | nil => intro ds h d hd
+           have : ds = [] := by
+             have : (Except.ok [] : Except SplErr (List SDim)) = .ok ds := h
+             injection this with this; exact this.symm
+           subst this; cases hd
+  | cons a t ih =>
+    intro ds h d hd
+    rw [List.mapM_cons] at h
+    cases ha : buildDim a with
+    | error e => rw [ha] at h; cases h
+    | ok b =>
+      rw [ha] at h
+      cases ht : t.mapM buildDim with
+      | error e => rw [ht] at h; cases h
+      | ok r' =>
+        rw [ht] at h
+        have : ds = b :: r' := by
+          have : (Except.ok (b :: r') : Except SplErr (List SDim)) = .ok ds := h
+          injection this with this; exact this.symm
+        subst this
+        rcases List.mem_cons.mp hd with e | e
+        · subst e; exact (buildDim_wf ha).1
+        · exact ih r' ht d e
+
+/-- **`get_support` and `get_dofs` of a structured spline basis are mutual inverses** (property clause
+"the dof-to-elements and element-to-dofs maps are mutual inverses"), for every number of dimensions and per
+dimension every degree, element count, continuity, knot-multiplicity vector and periodicity that
+`basis_spline` accepts: element `e` is listed in the support of dof `x` iff `x` is listed among the dofs of `e`. -/
+theorem support_dofs_inverse (specs : List DimSpec) (ds : List SDim) (h : specs.mapM buildDim = .ok ds)
+    (x e : Nat) (hx : x < ndofsTot ds) (he : e < nelemsTot ds) :
+    e ∈ supportND ds x ↔ x ∈ dofsND ds e :=
+  supportND_iff ds (mapM_buildDim_wf specs ds h) x e hx he
+
+/-- every element of a spline dimension carries exactly `p+1` consecutive dofs, modulo the periodic wrap:
+the dofs of element `e` are `(start e + r) mod nd` for `r = 0..p`, and there are `n` elements -/
+theorem spline_dofs_consecutive (spec : DimSpec) (d : SDim) (h : buildDim spec = .ok d) (e : Nat) (he : e < spec.2.1) :
+    d.n = spec.2.1 ∧
+    dofs1 d e = (List.range (spec.1 + 1)).map (fun r => (d.start.getD e 0 + r) % d.nd) := by
+  obtain ⟨hwf, hn, hstop⟩ := buildDim_wf h
+  refine ⟨hn, ?_⟩
+  unfold dofs1
+  have hlt : e < d.start.length := by rw [← hn] at he; exact he
+  have : d.stop.getD e 0 = d.start.getD e 0 + spec.1 + 1 := by
+    rw [hstop]; exact getD_map_of_lt _ hlt
+  rw [this, show d.start.getD e 0 + spec.1 + 1 - d.start.getD e 0 = spec.1 + 1 by omega]
+
+/-- **dof count / offset formula**: with resolved multiplicities `m` (length `n+1`), element `e` starts at dof
+`m[1]+…+m[e]`; the dimension has `m[0]+…+m[n-1]` dofs if periodic (and not discontinuous at the seam) and
+`p+1+m[1]+…+m[n-1]` otherwise. -/
+theorem spline_ndofs_formula (p n : Nat) (c : Int) (mo : Option (List Nat)) (per : Bool) (m : List Nat) (d : SDim)
+    (hm : resolveMults p n c mo = .ok m) (h : splineDim p n m per = .ok d) :
+    m.length = n + 1 ∧ (∀ x ∈ m, 1 ≤ x ∧ x ≤ p + 1) ∧
+    (∀ e, e < n → d.start.getD e 0 = ((m.take (e+1)).drop 1).sum) ∧
+    d.nd = (if per && !(m.getD 0 0 == m.getD n 0 && m.getD n 0 == p+1) then (m.take n).sum
+            else p + 1 + ((m.take n).drop 1).sum) :=
+  ⟨(resolveMults_range hm).1, (resolveMults_range hm).2, (splineDim_formula h).1, (splineDim_formula h).2⟩
+
+/-- a non-periodic dimension never wraps: the last element's dof range ends exactly at `nd` -/
+theorem spline_nonperiodic_nowrap (p n : Nat) (m : List Nat) (d : SDim) (h : splineDim p n m false = .ok d) :
+    d.stop.getLast?.getD 0 = d.nd :=
+  splineDim_nowrap h
+
+-- non-vacuity: a 2-D request (degree 1 × periodic degree 2 with C^0 continuity) is accepted
+example : ∃ ds, [((1 : Nat), (2 : Nat), (-1 : Int), (none : Option (List Nat)), false), (2, 2, 0, none, true)].mapM buildDim = .ok ds :=
+  ⟨_, rfl⟩
+
+/-! ## generic `Basis` bookkeeping -/
+
+/-- `PlainBasis` (`Basis._computed_support`): the computed support of dof `d` lists exactly the elements whose
+dof list contains `d` — for every table of per-element dof lists. -/
+theorem support_dofs_inverse_plain (ndofs : Nat) (table : List (List Nat)) (d : Nat) (hd : d < ndofs) (e : Nat) :
+    e ∈ (computedSupport ndofs table).getD d [] ↔ e < table.length ∧ d ∈ table.getD e [] :=
+  computedSupport_iff ndofs table d hd e
+
+/-- `DiscontBasis`: `get_support(d) = [searchsorted(offsets[:-1], d, 'right') - 1]` is the inverse of
+`get_dofs(e) = offsets[e] + range(size_e)`, for all per-element sizes (zero sizes included). -/
+theorem support_dofs_inverse_discont (sizes : List Nat) (d : Nat) (hd : d < sizes.sum) (e : Nat) :
+    e ∈ discontSupport sizes d ↔ d ∈ discontDofs sizes e :=
+  discont_inverse sizes d hd e
+
+/-- `LegendreBasis`: `get_support(d) = [d // (p+1)]` is the inverse of `get_dofs(e) = e(p+1) + range(p+1)`. -/
+theorem support_dofs_inverse_legendre (p d e : Nat) : e ∈ legendreSupport p d ↔ d ∈ legendreDofs p e :=
+  legendre_inverse p d e
+
+/-- `MaskedBasis` (`basis[mask]`): for every parent whose maps are mutual inverses and every strictly
+increasing (duplicate free, in range) index vector, the masked basis' maps are mutual inverses. -/
+theorem support_dofs_inverse_masked (pD pS : Nat → List Nat) (hpar : ∀ e d, e ∈ pS d ↔ d ∈ pD e)
+    (indices : List Nat) (nparent : Nat) (hnd : indices.Nodup) (hr : ∀ i ∈ indices, i < nparent)
+    (d : Nat) (hd : d < indices.length) (e : Nat) :
+    e ∈ maskedSupport pS indices d ↔ d ∈ maskedDofs (pD e) indices nparent :=
+  masked_inverse pD pS hpar indices nparent hnd hr d hd e
+
+/-- `PrunedBasis` (bases on trimmed / subset topologies): for every parent whose maps are mutual inverses and
+every duplicate-free element selection, the pruned basis' maps are mutual inverses. -/
+theorem support_dofs_inverse_pruned (pD pS : Nat → List Nat) (hpar : ∀ e d, e ∈ pS d ↔ d ∈ pD e)
+    (transmap : List Nat) (nparent : Nat) (hnd : transmap.Nodup) (hr : ∀ e x, x ∈ pD e → x < nparent)
+    (d : Nat) (hd : d < (prunedDofmap pD transmap).length) (e : Nat) :
+    e ∈ prunedSupport pD pS transmap d ↔ e < transmap.length ∧ d ∈ prunedDofs pD transmap nparent e :=
+  pruned_inverse pD pS hpar transmap nparent hnd hr d hd e
+
+/-! ## partition of unity -/
+
+/-- **B-spline partition of unity** (Cox–de Boor over ℚ, for every degree and every non-decreasing knot
+sequence, repeated knots included): on the knot span `[T (j0+p), T (j0+p+1))` the `p+1` consecutive B-splines
+`N_{j0,p} … N_{j0+p,p}` sum to one. -/
+theorem bspline_pou (T : Nat → Rat) (hT : ∀ i j, i ≤ j → T i ≤ T j) (p j0 : Nat) (x : Rat)
+    (h1 : T (j0+p) ≤ x) (h2 : x < T (j0+p+1)) :
+    ((List.range (p+1)).map fun i => bspline T p (j0+i) x).sum = 1 := by
+  rw [list_sum_eq_finset]
+  exact bspline_pou_finset T (fun i j h => hT i j h) p j0 x h1 h2
+
+/-- **local support**: every other B-spline vanishes on that span, so the functions that are non-zero on an
+element are among the `p+1` consecutive ones. -/
+theorem bspline_local_support (T : Nat → Rat) (hT : ∀ i j, i ≤ j → T i ≤ T j) (p j0 j : Nat) (x : Rat)
+    (h1 : T (j0+p) ≤ x) (h2 : x < T (j0+p+1)) (hj : j < j0 ∨ j0 + p < j) : bspline T p j x = 0 := by
+  have hm : Monotone T := fun i j h => hT i j h
+  rcases hj with hj | hj
+  · exact bspline_zero_right T hm p j x (le_trans (hT _ _ (by omega)) h1)
+  · exact bspline_zero_left T hm p j x (lt_of_lt_of_le h2 (hT _ _ (by omega)))
+
+/-- **Bernstein partition of unity**: for every degree `n` and every rational `x`, `Σ_i C(n,i) x^i (1-x)^(n-i) = 1`. -/
+theorem bernstein_pou (n : Nat) (x : Rat) : ((List.range (n+1)).map fun i => bernstein n i x).sum = 1 := by
+  rw [list_sum_eq_finset]; exact bernstein_sum_finset n x
 
 end NutilsVerif.C12
